@@ -359,7 +359,28 @@ def m_choices(rng, n, extra):
     return sorted(x for x in base if 2 <= x <= N)
 
 
+
+def _limit_blas_threads(n_threads=2):
+    """OpenBLAS threading does not speed these small tensor contractions up but occupies every core; cap it (best
+    effort, silently skipped when the bundled library or symbol is not found)."""
+    try:
+        import ctypes
+        import glob
+        import os
+        libdir = os.path.join(os.path.dirname(os.path.dirname(np.__file__)), "numpy.libs")
+        for path in glob.glob(os.path.join(libdir, "*openblas*")):
+            lib = ctypes.CDLL(path)
+            for name in ("scipy_openblas_set_num_threads64_", "openblas_set_num_threads64_",
+                         "scipy_openblas_set_num_threads", "openblas_set_num_threads"):
+                if hasattr(lib, name):
+                    getattr(lib, name)(int(n_threads))
+                    break
+    except Exception:
+        pass
+
+
 def evaluate(ctx, deep):
+    _limit_blas_threads()
     rng = ctx.rng
     main = list(MAIN)
     allv = main + list(OPTFORMS)
